@@ -1,4 +1,5 @@
 #pragma once
+#include <type_traits>
 
 #include <OpenVolumeMesh/IO/PropertyCodecs.hh>
 #include <OpenVolumeMesh/Core/detail/internal_type_name.hh>
@@ -128,6 +129,9 @@ struct Primitive {
         enc.write(val);
     }
     static void decode(Decoder &reader, T &val) {
+        if constexpr (std::is_arithmetic_v<T>) {
+            reader.need(sizeof(T));
+        }
         reader.read(val);
     }
 };
@@ -140,6 +144,7 @@ struct OVMHandle {
         enc.write(val.idx());
     }
     static void decode(Decoder &reader, T &val) {
+        reader.need(sizeof(val.idx()));
         reader.read(val.idx_mutable());
     }
 };
